@@ -294,3 +294,259 @@ Section HP.
     split; [exact Hret|]. split; [exact HI'|]. now apply ord_index_ordered.
   Qed.
 End HP.
+
+(* ------------------------------------------------------------------ links attach only to ports the operations have *)
+Section Ports.
+  Context {Op Meta : Type}.
+  Variables vports sports : Op -> dir -> nat.
+  Variable has_order : Op -> bool.
+  Notation store := (Graph.hugr Op Meta).
+  Notation gget := (@Graph.get_node Op Meta).
+  Notation aget := (dget Nat.eqb).
+  Notation call_on_ports := (call_on_ports vports sports has_order).
+  Notation hist_on_ports := (hist_on_ports vports sports has_order).
+
+  Definition pe_port (h : store) (p : Graph.port) (d : dir) : bool :=
+    port_exists vports sports has_order (view h) (vport p) d.
+  Definition PE (h : store) : Prop :=
+    forall s t, In (s, t) (q_links h) -> pe_port h s DOut = true /\ pe_port h t DIn = true.
+
+  Lemma PE_ports_exist (h : store) : PE h -> ports_exist_b vports sports has_order (view h) = true.
+  Proof.
+    intros H. unfold ports_exist_b. apply forallb_forall. intros l Hl. cbn [view h_links] in Hl.
+    apply in_map_iff in Hl. destruct Hl as ([s t] & <- & Hin). destruct (H s t Hin) as [A B].
+    cbn [vlink fst snd]. unfold pe_port in A, B. now rewrite A, B.
+  Qed.
+  Lemma pe_port_live (h : store) p d : pe_port h p d = true -> exists nd, gget h (fst p) = Some nd.
+  Proof.
+    unfold pe_port, port_exists. cbn [vport fst snd]. rewrite view_get. destruct (gget h (fst p)) as [nd|]; [eauto|discriminate].
+  Qed.
+  Lemma pe_port_ext (h h' : store) p d nd nd' : gget h (fst p) = Some nd -> gget h' (fst p) = Some nd' ->
+    nd_op nd' = nd_op nd -> pe_port h' p d = pe_port h p d.
+  Proof.
+    unfold pe_port, port_exists. cbn [vport fst snd]. rewrite !view_get. intros -> -> E. cbn. now rewrite E.
+  Qed.
+
+  (* the links after a call of the store are links it had before, or the link the call adds *)
+  Definition new_link (c : bcmd Op Meta) (l : Graph.port * Graph.port) : Prop :=
+    match c with
+    | AddLink s t => l = (s, t)
+    | AddOrder a b => l = ((a, (-1)%Z), (b, (-1)%Z))
+    | _ => False
+    end.
+  Lemma s_bstep_links (g : agraph Op Meta) c rt g' l : s_bstep g c rt = Next g' -> In l (a_links g') ->
+    In l (a_links g) \/ new_link c l.
+  Proof.
+    intros Hs Hin.
+    assert (Hadd : forall s t, In l (a_links (s_add_link g s t)) -> In l (a_links g) \/ l = (s, t)).
+    { intros s t H. unfold s_add_link in H. cbn [a_links] in H. rewrite !a_upd_links in H.
+      apply in_app_or in H. destruct H as [H|[<-|[]]]; auto. }
+    destruct c as [o p k m|o p m|s t|y z|s t|n]; cbn [s_bstep new_link] in *.
+    - destruct (a_live g (dflt g p)); [|discriminate]. destruct rt as [|n|]; try discriminate.
+      destruct (a_live g n); [discriminate|]. injection Hs as <-. unfold s_add_node in Hin. cbn [a_links] in Hin.
+      rewrite a_upd_links in Hin. now left.
+    - destruct (a_live g (dflt g p)); [|discriminate]. destruct rt as [|n|]; try discriminate.
+      destruct (a_live g n); [discriminate|]. injection Hs as <-. unfold s_add_node in Hin. cbn [a_links] in Hin.
+      rewrite a_upd_links in Hin. now left.
+    - destruct (port_ok g s && port_ok g t); [|discriminate]. injection Hs as <-. auto.
+    - destruct (a_live g y && a_live g z); [|discriminate]. injection Hs as <-.
+      destruct (s_has_link g (y, (-1)%Z) (z, (-1)%Z)); [now left|auto].
+    - injection Hs as <-. left. unfold s_delete_link in Hin.
+      destruct (remove1 Graph.link_eqb (s, t) (a_links g)) as [l0|] eqn:E; [|exact Hin]. cbn [a_links] in Hin.
+      apply (remove1_perm Graph.link_eqb link_eqb_spec) in E. eapply Permutation_in; [symmetry; exact E|now right].
+    - destruct (aget (a_nodes g) n) as [an|]; [|discriminate]. destruct (a_children an); [|discriminate].
+      destruct (Nat.eqb n (a_root g)); [discriminate|]. injection Hs as <-. left.
+      unfold s_delete_node in Hin. cbn [a_links] in Hin. apply filter_In in Hin. destruct Hin as [Hin _].
+      destruct (a_parent an); [now rewrite a_upd_links in Hin|exact Hin].
+  Qed.
+
+  (* no call changes the operation of a node *)
+  Lemma bstep_op_kept (h : store) b h' rt r g' x nd nd' : Inv h -> bstep h b = (h', rt, r) ->
+    s_bstep (abs h) b rt = Next g' -> gget h x = Some nd -> gget h' x = Some nd' -> nd_op nd' = nd_op nd.
+  Proof.
+    intros HI Hb Hs E E'. destruct (adds_node (HB b)) eqn:Hadd.
+    - assert (Hnd : b <> DelNode x) by (intros ->; discriminate).
+      destruct (live_nodes_keep_index h (abs h) b h' rt r g' x nd HI (Rep_abs h) Hb Hs E Hnd) as (d' & Ed' & F & _).
+      congruence.
+    - destruct (bstep_back h b h' rt r g' x nd' HI Hb Hs Hadd E') as (d & Ed & F & _). congruence.
+  Qed.
+
+  Lemma bstep_PE (h : store) b h' rt r : Inv h -> PE h -> call_in_guard h (HB b) = true ->
+    call_on_ports h (HB b) = true -> bstep h b = (h', rt, r) -> Inv h' /\ PE h'.
+  Proof.
+    intros HI HP HG HC Hb. destruct (guard_next h b h' rt r HI HG Hb) as (g' & Hs & _ & HI' & HR').
+    split; [exact HI'|]. intros s t Hin.
+    assert (Hl : In (s, t) (q_links h) \/ new_link b (s, t)).
+    { eapply Permutation_in in Hin; [|exact (links_refine h' g' HR')]. exact (s_bstep_links (abs h) b rt g' _ Hs Hin). }
+    assert (Hold : pe_port h s DOut = true /\ pe_port h t DIn = true).
+    { destruct Hl as [Hl|Hl]; [now apply HP|].
+      destruct b as [o p k m|o p m|s0 t0|y z|s0 t0|n]; cbn [new_link] in Hl; try contradiction;
+        injection Hl as -> ->; cbn [HugrHistS.call_on_ports] in HC; unfold link_on_ports in HC; apply andb_prop in HC; exact HC. }
+    destruct HI' as (_ & _ & HC' & _). destruct (HC' s t Hin) as ((ds & Es & _) & (dt & Et & _)).
+    destruct Hold as [Ho Hi]. destruct (pe_port_live _ _ _ Ho) as (ns & Ens). destruct (pe_port_live _ _ _ Hi) as (nt & Ent).
+    split.
+    - rewrite (pe_port_ext h h' s DOut ns ds Ens Es); [exact Ho|]. eapply bstep_op_kept; eassumption.
+    - rewrite (pe_port_ext h h' t DIn nt dt Ent Et); [exact Hi|]. eapply bstep_op_kept; eassumption.
+  Qed.
+
+  Lemma hstep_PE (h : store) c : Inv h -> PE h -> call_in_guard h c = true -> call_on_ports h c = true ->
+    Inv (fst (hstep h c)) /\ PE (fst (hstep h c)).
+  Proof.
+    intros HI HP HG HC. destruct c as [b|n m]; cbn [hstep].
+    - destruct (bstep h b) as [[h' rt] r] eqn:E. cbn [fst]. eapply bstep_PE; eassumption.
+    - cbn [call_in_guard] in HG. unfold s_live in HG. destruct (gget h n) as [d|] eqn:E; [|discriminate].
+      destruct (set_meta_effect h n m d E) as [-> Hget]. cbn [fst]. split; [now apply set_meta_Inv|].
+      intros s t Hin. change (q_links (set_node h n (set_meta_data d m))) with (q_links h) in Hin.
+      destruct (HP s t Hin) as [Ho Hi].
+      destruct (pe_port_live _ _ _ Ho) as (ns & Ens). destruct (pe_port_live _ _ _ Hi) as (nt & Ent).
+      assert (Hk : forall x nx, gget h x = Some nx -> exists nx', gget (set_node h n (set_meta_data d m)) x = Some nx' /\ nd_op nx' = nd_op nx).
+      { intros x nx Ex. rewrite Hget. destruct (Nat.eqb_spec x n) as [->|]; [|eauto].
+        assert (nx = d) by congruence. subst nx. eexists. split; reflexivity. }
+      destruct (Hk _ _ Ens) as (ns' & Ens' & Fs). destruct (Hk _ _ Ent) as (nt' & Ent' & Ft).
+      split; [rewrite (pe_port_ext h _ s DOut ns ns' Ens Ens' Fs)|rewrite (pe_port_ext h _ t DIn nt nt' Ent Ent' Ft)]; assumption.
+  Qed.
+
+  Theorem hrun_PE cs : forall h : store, Inv h -> PE h -> hist_in_guard h cs = true -> hist_on_ports h cs = true ->
+    PE (hrun h cs).
+  Proof.
+    induction cs as [|c r IH]; intros h HI HP HG HC; cbn [hrun fold_left]; [assumption|].
+    unfold hist_in_guard in HG. unfold HugrHistS.hist_on_ports in HC. cbn [every_call] in HG, HC.
+    apply andb_prop in HG, HC. destruct HG as [Hg Hgr], HC as [Hc Hcr].
+    destruct (hstep_PE h c HI HP Hg Hc) as [HI' HP']. exact (IH _ HI' HP' Hgr Hcr).
+  Qed.
+
+  Lemma every_call_weaken (P Q : store -> hcmd Op Meta -> bool) : (forall h c, P h c = true -> Q h c = true) ->
+    forall cs h, every_call P h cs = true -> every_call Q h cs = true.
+  Proof.
+    intros HPQ. induction cs as [|c r IH]; intros h H; cbn [every_call] in *; [reflexivity|].
+    apply andb_prop in H. destruct H as [A B]. now rewrite (HPQ _ _ A), (IH _ B).
+  Qed.
+  Lemma hist_ok_in_guard cs (h : store) : hist_ok h cs = true -> hist_in_guard h cs = true.
+  Proof. apply every_call_weaken. intros h' c H. unfold call_ok in H. now apply andb_prop in H. Qed.
+
+  (* the premise of the round-trip theorems holds after every history without index reuse whose add_link /
+     add_order_link calls name ports the operations have *)
+  Theorem history_guard o m cs : hist_ok (@init Op Meta o m) cs = true -> hist_on_ports (init o m) cs = true ->
+    all_return (init o m) cs = true /\ guard_b vports sports has_order (view (hrun (init o m) cs)) = true.
+  Proof.
+    intros HH HC. destruct (history_index_ordered o m cs HH) as (Hret & _ & HO). split; [exact Hret|].
+    unfold guard_b. rewrite HO. cbn [andb]. apply PE_ports_exist.
+    destruct (init_inv o m) as [HI _]. apply hrun_PE; [exact HI| |now apply hist_ok_in_guard|exact HC].
+    intros s t [].
+  Qed.
+End Ports.
+
+(* ------------------------------------------------------------------ the syntactic form of "no index reuse" *)
+Section Syntactic.
+  Context {Op Meta : Type}.
+  Notation store := (Graph.hugr Op Meta).
+
+  Lemma add_node_raw_free_nil (h : store) o p k m : free h = [] -> free (fst (fst (add_node_raw h o p k m))) = [].
+  Proof.
+    intros Hf. unfold add_node_raw. rewrite Hf.
+    destruct p as [pp|]; [destruct (Graph.get_node _ pp)|]; destruct k; try destruct (Graph.get_node _ _); cbn; exact Hf.
+  Qed.
+  Lemma add_link_free (h : store) s t : free (fst (add_link h s t)) = free h.
+  Proof.
+    unfold add_link. destruct (lm_add (links h) s t); [|reflexivity]. cbn.
+    destruct (Graph.get_node _ (fst s)); [|reflexivity]. destruct (Graph.get_node _ (fst t)); reflexivity.
+  Qed.
+  Lemma hstep_free_nil (h : store) (c : hcmd Op Meta) : free h = [] -> deletes_node c = false -> free (fst (hstep h c)) = [].
+  Proof.
+    intros Hf Hd. destruct c as [[o p k m|o p m|s t|a b|s t|n]|n m]; cbn [hstep bstep deletes_node] in *; try discriminate.
+    - unfold add_node. pose proof (add_node_raw_free_nil h o (Some (match p with Some x => x | None => root h end)) k m Hf) as H.
+      destruct (add_node_raw _ _ _ _ _) as [[h' n'] r]. exact H.
+    - unfold add_node. pose proof (add_node_raw_free_nil h o (Some (match p with Some x => x | None => root h end)) None m Hf) as H.
+      destruct (add_node_raw _ _ _ _ _) as [[h' n'] r]. exact H.
+    - pose proof (add_link_free h s t) as H. destruct (add_link h s t) as [h' r]. cbn in *. congruence.
+    - unfold add_order_link. destruct (has_link h _ _); [exact Hf|].
+      pose proof (add_link_free h (a, (-1)%Z) (b, (-1)%Z)) as H. destruct (add_link h _ _) as [h' r]. cbn in *. congruence.
+    - unfold delete_link. destruct (lm_delete_link (links h) s t). exact Hf.
+    - unfold set_meta. destruct (Graph.get_node h n); exact Hf.
+  Qed.
+
+  Lemma hist_ok_no_adds cs : forall h : store, hist_in_guard h cs = true ->
+    forallb (fun c => negb (adds_node c)) cs = true -> hist_ok h cs = true.
+  Proof.
+    induction cs as [|c r IH]; intros h HG HN; [reflexivity|]. unfold hist_ok, hist_in_guard in *. cbn [every_call forallb] in *.
+    apply andb_prop in HG, HN. destruct HG as [Hg Hgr], HN as [Hn Hnr].
+    unfold call_ok, call_fresh. rewrite Hg, Hn. cbn. now apply IH.
+  Qed.
+  (* a history inside the guard in which no node is added after a node was deleted never reuses an index *)
+  Theorem no_add_after_delete_ok cs : forall h : store, free h = [] -> hist_in_guard h cs = true ->
+    no_add_after_delete cs = true -> hist_ok h cs = true.
+  Proof.
+    induction cs as [|c r IH]; intros h Hf HG HN; [reflexivity|].
+    pose proof HG as HG0. unfold hist_in_guard in HG. cbn [every_call] in HG. apply andb_prop in HG. destruct HG as [Hg Hgr].
+    assert (Hc : call_ok h c = true).
+    { unfold call_ok, call_fresh. rewrite Hg, Hf. cbn. apply orb_true_r. }
+    unfold hist_ok. cbn [every_call]. rewrite Hc. cbn [andb]. cbn [no_add_after_delete] in HN.
+    destruct (deletes_node c) eqn:Hd.
+    - now apply hist_ok_no_adds.
+    - apply IH; [now apply hstep_free_nil|exact Hgr|exact HN].
+  Qed.
+  Theorem no_add_after_delete_init (o : Op) (m : Meta) cs : hist_in_guard (init o m) cs = true ->
+    no_add_after_delete cs = true -> hist_ok (init o m) cs = true.
+  Proof. apply no_add_after_delete_ok. reflexivity. Qed.
+End Syntactic.
+
+(* ------------------------------------------------------------------ the round trip after a history *)
+Section RoundTrip.
+  Variables op sop md : Type.
+  Variable enc : op -> sop.
+  Variable dec : sop -> op.
+  Variable ndp : op -> dir -> option nat.
+  Variable md_nil : md.
+  Variable md_is_nil : md -> bool.
+  Variables vports sports : op -> dir -> nat.
+  Variable has_order : op -> bool.
+  Hypothesis ndp_spec : forall o d, ndp o d = if has_order o then Some (vports o d + sports o d) else None.
+  Hypothesis md_nil_is_nil : md_is_nil md_nil = true.
+  Hypothesis md_nil_unique : forall m, md_is_nil m = true -> m = md_nil.
+  Hypothesis enc_dec_enc : forall o, enc (dec (enc o)) = enc o.
+  Hypothesis ndp_dec_enc : forall o d, ndp (dec (enc o)) d = ndp o d.
+
+  Theorem history_roundtrip (o : op) (m : md) (cs : list (hcmd op md)) :
+    hist_ok (init o m) cs = true -> hist_on_ports vports sports has_order (init o m) cs = true ->
+    exists s h', to_serial enc ndp md_is_nil (view (hrun (init o m) cs)) = Some s /\
+                 from_serial dec ndp md_nil s = Some h' /\ to_serial enc ndp md_is_nil h' = Some s /\
+                 Iso enc (view (hrun (init o m) cs)) h'.
+  Proof.
+    intros HH HC. destruct (history_guard vports sports has_order o m cs HH HC) as [_ HG].
+    destruct (roundtrip_fixpoint_total op sop md enc dec ndp md_nil md_is_nil vports sports has_order ndp_spec
+                md_nil_is_nil enc_dec_enc _ HG) as (s & h' & Hs & Hl & Hs').
+    destruct (roundtrip_iso op sop md enc dec ndp md_nil md_is_nil vports sports has_order ndp_spec
+                enc_dec_enc ndp_dec_enc md_nil_unique _ s HG Hs) as (h2 & Hl2 & HI).
+    assert (h2 = h') by congruence. subst h2.
+    exists s, h'. split; [exact Hs|]. split; [exact Hl|]. split; [exact Hs'|exact HI].
+  Qed.
+End RoundTrip.
+
+(* ------------------------------------------------------------------ non-vacuity *)
+(* Hugr(0); three nodes under the root; two links out of one port; the middle node (target of one of them)
+   is deleted; an order link, a metadata assignment and a link deletion follow.  Operations as in
+   SerialHugrP.Witness: every operation has one value port per direction and an order port. *)
+Module HistWitness.
+  Definition cs : list (hcmd nat nat) :=
+    [HB (AddNode 1 None (Some 1%Z) 0); HB (AddNode 2 None None 5); HB (AddConst 3 (Some 0) 0);
+     HB (AddLink (1, 0%Z) (2, 0%Z)); HB (AddLink (1, 0%Z) (3, 0%Z)); HB (AddLink (2, 0%Z) (3, 0%Z));
+     HB (DelNode 2);
+     HB (AddOrder 1 3); HSetMeta 3 7; HB (AddLink (3, 0%Z) (1, 0%Z)); HB (DelLink (3, 0%Z) (1, 0%Z))].
+  Definition final := view (hrun (init 0 0) cs).
+End HistWitness.
+Lemma history_example :
+  hist_ok (init 0 0) HistWitness.cs = true /\
+  hist_on_ports Witness.vports Witness.sports Witness.has_order (init 0 0) HistWitness.cs = true /\
+  no_add_after_delete HistWitness.cs = true /\
+  map (option_map (fun n => (n_parent n, n_children n, n_md n))) (h_nodes HistWitness.final) =
+    [Some (None, [1; 3], 0); Some (Some 0, [], 0); None; Some (Some 0, [], 7)] /\
+  h_links HistWitness.final = [((1, APort 0), (3, APort 0)); ((1, AOrder), (3, AOrder))] /\
+  exists s h', Witness.to_s HistWitness.final = Some s /\ Witness.from_s s = Some h' /\ Witness.to_s h' = Some s /\
+               length (s_nodes s) = 3.
+Proof.
+  split; [vm_compute; reflexivity|]. split; [vm_compute; reflexivity|]. split; [reflexivity|].
+  split; [vm_compute; reflexivity|]. split; [vm_compute; reflexivity|].
+  destruct (Witness.to_s HistWitness.final) as [s|] eqn:E; [|vm_compute in E; discriminate].
+  destruct (Witness.from_s s) as [h'|] eqn:E2; [|vm_compute in E; injection E as <-; vm_compute in E2; discriminate].
+  exists s, h'. vm_compute in E. injection E as <-. vm_compute in E2. injection E2 as <-. repeat split; reflexivity.
+Qed.
